@@ -1,6 +1,8 @@
 import Toq.Driver.Util
 import Toq.Driver.QJson
 import Toq.Model.States
+import Toq.Model.StatesExtra
+import Toq.Model.Combinat
 /-! Driver handlers for C17: closed-form models of `toqito.states` and `toqito.matrices`.
 
 Three result encodings (all integers):
@@ -44,6 +46,16 @@ def hRU : Handler := fun j => do
   | "gen_bell" =>
     let a ← getNat j "a"; let b ← getNat j "b"
     return ruJson (d * d) (d * d) d (d * d) (genBellE d a b)
+  | "mub" =>
+    -- basis `g` (1..d) of `mutually_unbiased_basis(d)`, odd prime `d`: eigenvectors of `X Z^j`, `j = d + 1 - g`
+    let g ← getNat j "g"
+    if mubGuard d != 0 then return reject (if mubGuard d == 1 then "PrimePower" else "NoConstruction")
+    if d == 2 then throw "c17_ru mub: d = 2 is served by c17_int mub2"
+    if g == 0 || g > d then throw "c17_ru mub: g out of range"
+    let jj := mubLoopJ d g
+    let rows := (List.range d).map (fun m => intArrayJson (arrayOfFn d (fun x => match mubE d jj m x with | none => (-1 : Int) | some k => (k : Int))))
+    return Json.mkObj [("j", Json.num jj), ("order", Json.num d), ("den2", Json.num d), ("vectors", Json.arr rows.toArray),
+      ("matrix", ruJson d d d 1 (genPauliE d 1 jj))]
   | _ => throw s!"c17_ru: unknown kind {kind}"
 
 def getCoeff (j : Json) (n : Nat) : Except String (Option (Nat → Int)) := do
@@ -90,6 +102,10 @@ def hInt : Handler := fun j => do
     let i ← getNat j "idx"
     if i > 3 then return reject "InvalidIdx"
     return vecJson 4 2 (bellS i)
+  | "bell_mirror" =>
+    let i ← getNat j "idx"
+    if i > 3 then return reject "InvalidIdx"
+    return vecJson 4 2 (bellMirror i)
   | "max_entangled" =>
     let d ← getNat j "d"; let nrm ← getBool j "normalized"
     return vecJson (d * d) (if nrm then d else 1) (maxEntS d)
@@ -124,6 +140,38 @@ def hInt : Handler := fun j => do
     let i ← getNat j "idx"
     if i > 8 then return reject "InvalidIdx"
     return vecJson 9 (dominoDen2 i) (dominoS i)
+  | "mub2" =>
+    let g ← getNat j "g"; let m ← getNat j "m"
+    if g > 2 || m > 1 then throw "c17_int mub2: index out of range"
+    return giJson [2] 2 1 (mub2Den2 g) (fun x _ => mub2 g m x)
+  | "bb84" =>
+    let b ← getNat j "b"; let m ← getNat j "m"
+    if b > 1 || m > 1 then throw "c17_int bb84: index out of range"
+    return vecJson 2 (bb84Den2 b) (bb84S b m)
+  | "trine" =>
+    -- component `x` of state `k` is `(p + q·√3)/2`
+    let k ← getNat j "k"
+    if k > 2 then throw "c17_int trine: index out of range"
+    return Json.mkObj [("p", intArrayJson #[(trineS k 0).1, (trineS k 1).1]), ("q", intArrayJson #[(trineS k 0).2, (trineS k 1).2]),
+      ("den", Json.num (2 : Nat))]
+  | "breuer_psi" =>
+    let d ← getNat j "d"
+    let a := arrayOfFn (d * d) (breuerPsi d)
+    let b := arrayOfFn (d * d) (breuerPsiMirror d)
+    return Json.mkObj [("closed", intArrayJson a), ("mirror", intArrayJson b), ("den2", Json.num d)]
+  | "brauer" =>
+    let d ← getInt j "d"; let p ← getInt j "p"
+    if d < 1 || p < 1 then return reject "InvalidArg"
+    let d := d.toNat; let p := p.toNat
+    let ms := Toq.Combinat.perfectMatchingsInt (2 * p)
+    let rows := (d * d) ^ p
+    let cols := ms.length
+    return Json.mkObj [("shape", natListJson [rows, cols]),
+      ("matchings", Json.arr (ms.map natListJson).toArray),
+      ("re", intArrayJson (arrayOfMat rows cols (fun r c => brauerCol d p (ms.getD c []) r)))]
+  | "mub_guard" =>
+    let d ← getNat j "d"
+    return Json.mkObj [("branch", Json.num (mubGuard d))]
   | _ => throw s!"c17_int: unknown kind {kind}"
 
 def hRat : Handler := fun j => do
@@ -135,7 +183,7 @@ def hRat : Handler := fun j => do
     return ratMatJson (d * d) (d * d) (werner d a)
   | "werner_list" =>
     let d ← getNat j "d"; let al ← getRatList j "alpha"; let asort ← getBool j "argsort"
-    match factInv (al.length + 1) with
+    match wernerParties al.length with
     | none => return reject "InvalidAlpha"
     | some p =>
       let N := d ^ p
@@ -162,6 +210,22 @@ def hRat : Handler := fun j => do
     if dim == [3, 3] then return ratMatJson 9 9 (horodecki33 a c)
     else if dim == [2, 4] then return ratMatJson 8 8 (horodecki24 a c)
     else return reject "InvalidDim"
+  | "gisin" =>
+    let lam ← getRat j "lam"; let sn ← getRat j "s"; let cs ← getRat j "c"
+    if lam < 0 || lam > 1 then return reject "InvalidLambda"
+    if sn * sn + cs * cs != 1 then throw "c17_rat gisin: s^2 + c^2 != 1"
+    return ratMatJson 4 4 (gisin lam sn cs)
+  | "pbr" =>
+    let n ← getNat j "n"; let sn ← getRat j "s"; let cs ← getRat j "c"
+    if sn * sn + cs * cs != 1 then throw "c17_rat pbr: s^2 + c^2 != 1"
+    return Json.mkObj [("shape", natListJson [2 ^ n, 2 ^ n]),
+      ("q", Json.arr ((arrayOfMat (2 ^ n) (2 ^ n) (fun t x => pbrVec cs sn n t x)).map ratJson)),
+      ("gram", Json.arr ((arrayOfMat (2 ^ n) (2 ^ n) (fun t t' => pbrGram cs sn n t t')).map ratJson))]
+  | "breuer" =>
+    let d ← getInt j "d"; let lam ← getRat j "lam"
+    if d % 2 == 1 || d ≤ 0 then return reject "InvalidDim"
+    let d := d.toNat
+    return ratMatJson (d * d) (d * d) (breuer d (breuerPsi d) lam)
   | "werner_pt_eigs" =>
     let d ← getNat j "d"; let a ← getRat j "alpha"
     if (d : Rat) * ((d : Rat) - a) == 0 then return reject "ZeroDivision"
@@ -174,5 +238,35 @@ def hRat : Handler := fun j => do
     return Json.mkObj [("eigs", Json.arr #[ratJson e.1, ratJson e.2])]
   | _ => throw s!"c17_rat: unknown kind {kind}"
 
-def handlers : List (String × Handler) := [("c17_ru", hRU), ("c17_int", hInt), ("c17_rat", hRat)]
+/-- division in `ℚ[i]` (only used by the chessboard model; `x / 0 = 0`) -/
+local instance : Div QI := ⟨fun a b =>
+  let n := b.re * b.re + b.im * b.im
+  ⟨(a.re * b.re + a.im * b.im) / n, (a.im * b.re - a.re * b.im) / n⟩⟩
+
+def getQIList (j : Json) (key : String) : Except String (List QI) := do
+  let a ← (← j.getObjVal? key).getArr?
+  a.toList.mapM (fun v => do
+    let pr ← v.getArr?
+    if pr.size != 2 then throw "expected [re, im]"
+    return (⟨← asRat pr[0]!, ← asRat pr[1]!⟩ : QI))
+
+/-- `c17_qi`: complex-rational matrices `{"shape","re":[[num,den],…],"im":[…]}` -/
+def hQI : Handler := fun j => do
+  let kind ← (← j.getObjVal? "kind").getStr?
+  match kind with
+  | "chessboard" =>
+    let ps ← getQIList j "params"
+    if ps.length != 6 then return reject "InvalidParams"
+    let pr : Nat → QI := fun k => ps.getD k 0
+    let sv ← if isNull j "s" then pure (chessS pr) else do
+      let l ← getQIList j "s"; pure (l.getD 0 0)
+    let tv ← if isNull j "t" then pure (chessT pr) else do
+      let l ← getQIList j "t"; pure (l.getD 0 0)
+    if trace 9 (chessNum pr sv tv) == 0 then return reject "ZeroDivision"
+    let a := arrayOfMat 9 9 (chessboard pr sv tv)
+    return Json.mkObj [("shape", natListJson [9, 9]), ("re", Json.arr (a.map (fun z => ratJson z.re))),
+      ("im", Json.arr (a.map (fun z => ratJson z.im)))]
+  | _ => throw s!"c17_qi: unknown kind {kind}"
+
+def handlers : List (String × Handler) := [("c17_ru", hRU), ("c17_int", hInt), ("c17_rat", hRat), ("c17_qi", hQI)]
 end Toq.Driver.C17
